@@ -550,6 +550,8 @@ static bool exact_instance(vh::Trace& tr, const Sys& s, vh::Rng& rng, long i, co
   std::vector<float> lf(d.lam.begin(), d.lam.end());
   const Scales sc{ 18, 4, 10 };
   run_once(tr, s, e, c, "single", k - 1, k, k, *image_from(s, lf), sc, rng.range(0, 4) == 0, false);
+  // every fourth object is set up and used once more (OSSPS modified its precomputed denominator): same exact step again
+  if (rng.range(0, 3) == 0) run_once(tr, s, e, c, "single", k - 1, k, k, *image_from(s, lf), sc, false, false);
   remove_outputs(e, k);
   return true;
 }
